@@ -641,10 +641,29 @@ func ruleUseAfterRelease(c *Check, a *Analysis, rule string, scope uarScope) {
 			key := p.varKey(rs.Res)
 			var bad ssa.Instruction
 			var why string
+			// an upgrade object released through its owner (putUpgrade(x.upgrade)): x still points to it
+			var ownerKey interface{}
+			if rs.Kind.Name == resUpgrade.Name {
+				if fr, base, ok := fieldOfLoad(p.canon(rs.Res)); ok && fr.Field == "upgrade" {
+					ownerKey = p.varKey(base)
+				}
+			}
 			w, tr, found := p.reachFrom(fn, rs.Instr, func(in ssa.Instruction) bool {
 				if in == rs.Instr {
 					// reaching the same release again in a loop is only a double release if the variable was not re-initialised
 					return false
+				}
+				if ownerKey != nil {
+					if ci, ok := in.(ssa.CallInstruction); ok && ci.Common().IsInvoke() {
+						if m := ci.Common().Method.Name(); m == "WriteResponse" || m == "WriteRequest" {
+							for _, a := range ci.Common().Args {
+								if p.varKey(a) == ownerKey {
+									why = "the owner of the released upgrade object is handed to " + m + ", which reads its flags"
+									return true
+								}
+							}
+						}
+					}
 				}
 				if s, ok := p.badUseAfter(in, rs, key); ok {
 					why = s
@@ -656,6 +675,11 @@ func ruleUseAfterRelease(c *Check, a *Analysis, rule string, scope uarScope) {
 				if st, ok := in.(*ssa.Store); ok {
 					if cell := p.localCell(st.Addr); cell != nil && interface{}(cell) == key {
 						return true
+					}
+					if ownerKey != nil {
+						if fr, base, ok := fieldOfAddr(st.Addr); ok && fr.Field == "upgrade" && p.varKey(base) == ownerKey {
+							return true
+						}
 					}
 				}
 				if kv, ok := key.(ssa.Value); ok && redefines(p, in, kv) {
